@@ -23,13 +23,13 @@ P62, P63, P64 = 1 << 62, 1 << 63, 1 << 64
 GRID = {
     "int": [0, 1, -1, 2, -3, 7, 63, 64, P62, -P63, P63 - 1],
     "nat": [0, 1, 2, 3, 63, 64, P63, P64 - 1],
-    "float": [0.0, 0.5, -1.5, 2.5, -7.0, 1e18],
+    "float": [0.0, 0.5, -1.5, 2.5, -7.0, 1e18, float("nan"), float("inf"), -0.0],
     "bool": [False, True],
 }
 QUICK_GRID = {
     "int": [0, 1, -3, 7, 63, -P63, P63 - 1],
     "nat": [0, 2, 63, P63, P64 - 1],
-    "float": [0.0, 0.5, -1.5, 1e18],
+    "float": [0.0, 0.5, -1.5, 1e18, float("nan"), float("inf")],
     "bool": [False, True],
 }
 TYPES = ["int", "nat", "float", "bool"]
@@ -202,6 +202,13 @@ def cases(tier):
             for lit in LITS:
                 out.append((f"binop[{op}]:{ta}:traced-const[{lit}]", f"a: {ta}", RET_TYPES, [f"return a {op} {lit}"], (ta,), tier))
                 out.append((f"binop[{op}]:{ta}:const[{lit}]-traced", f"a: {ta}", RET_TYPES, [f"return {lit} {op} a"], (ta,), tier))
+    # the SAME traced value on both sides of an operator (directly, through an alias, through a tuple): nothing about
+    # `x op x` may be decided while tracing (x != x is true for NaN, x - x is NaN for inf, x / x panics for 0)
+    for op in BINOPS:
+        for ta in TYPES:
+            out.append((f"binop[{op}]:{ta}:same-operand", f"a: {ta}", RET_TYPES, [f"return a {op} a"], (ta,), tier))
+            out.append((f"binop[{op}]:{ta}:same-operand-alias", f"a: {ta}", RET_TYPES, ["y = a", f"return y {op} a"], (ta,), tier))
+            out.append((f"binop[{op}]:{ta}:same-operand-tuple", f"a: {ta}", RET_TYPES, ["t = (a, a)", f"return t[0] {op} t[1]"], (ta,), tier))
     # TWO Python constants in one function: equal-but-distinguishable values (0.0 / -0.0, 1 / 1.0 / True, 0 / False)
     # must stay distinct constants, in both orders, as operands and as a division check of the sign of zero
     consts = ["0.0", "-0.0", "1", "1.0", "True", "0", "False", "2", "2.0"]
